@@ -301,7 +301,7 @@ def window_shards(mode, tier, seed_value, per_seed=2, timeout=15, tag='w'):  # p
         if mode == 'rt' and not hasattr(cls.parse_exact_size(accepted[0]), 'compose'):
             continue    # code-point factories yield bare enum members; their encoding is C10's subject
         accepted.sort(key=lambda item: (len(item), item))
-        chosen = accepted[:2] if (thorough and len(accepted[0]) <= 24) else accepted[:1]
+        chosen = accepted[:2] if (thorough and len(accepted[0]) <= 6) else accepted[:1]
         short = name.replace('cryptoparser.', '')
         text = is_text_class(name)
         for sidx, data in enumerate(chosen):
